@@ -117,7 +117,10 @@ def r18_3(ctx, rep):
     "with a position derived some other way",
 )
 def r18_4(ctx, rep):
-    R = "R18.4"
+    element_correspondence(ctx, rep, "R18.4")
+
+
+def element_correspondence(ctx, rep, R):
     fn = ctx.func(MODEL, "Model._expand_vectors", R)
     n = 0
     for lp in ast.walk(fn):
